@@ -29,6 +29,7 @@ def tables():
         T.append((cls + '+ragged', [list(HDR)] + iolib.table_rows([11, 12, 13], cls, ragged=True)))
     T.append(('typed', [list(HDR)] + iolib.table_rows([11, 12, 13], 'plain', typed=True)))
     T.append(('emptyrows', [list(HDR), [], [u'x'], []]))
+    T.append(('no header at all', []))
     return T
 
 
